@@ -381,6 +381,27 @@ theorem sanitize_inner (s : List Nat) (hs : ∀ x ∈ s, isSpace x = true) (hk :
     have a₁ : s.all isSpace = true := List.all_eq_true.mpr hs
     simp [a₁, blank, Rune.isBad, Rune.val, isSpace_sp]
 
+/-! ### decoding padded strings -/
+
+theorem decodeGo_pad (s₁ s₂ : List Nat) (h₁ : ∀ c ∈ s₁, isSpace c = true) (h₂ : ∀ c ∈ s₂, isSpace c = true) (q : Bytes) :
+    decodeGo (encodeGo s₁ ++ q ++ encodeGo s₂) = s₁.map .cp ++ decodeGo q ++ s₂.map .cp := by
+  unfold decodeGo
+  rw [List.map_append, List.map_append, toNat_encodeGo, toNat_encodeGo, List.append_assoc,
+    decodeNat_encodeAll s₁ (fun c hc => space_scalar (h₁ c hc)),
+    decodeNat_append _ _ (by simpa using startOK_encodeAll s₂ [] (fun _ => trivial))]
+  have := decodeNat_encodeAll s₂ (fun c hc => space_scalar (h₂ c hc)) []
+  rw [List.append_nil, decodeNat_nil, List.append_nil] at this
+  rw [this, List.append_assoc]
+
+theorem decodeGo_inner (s : List Nat) (hs : ∀ c ∈ s, isSpace c = true) (hne : s ≠ []) (a b : Bytes) :
+    decodeGo (a ++ encodeGo s ++ b) = decodeGo a ++ s.map .cp ++ decodeGo b := by
+  unfold decodeGo
+  rw [List.map_append, List.map_append, toNat_encodeGo, List.append_assoc,
+    decodeNat_append _ _ (startOK_encodeAll s _ (fun h => absurd h hne)),
+    decodeNat_encodeAll s (fun c hc => space_scalar (hs c hc)), List.append_assoc]
+
+theorem encodeGo_sp : encodeGo [0x20] = [0x20] := by decide
+
 /-! ### n invalid bytes -/
 
 theorem decodeNat_replicate_FF (n : Nat) : decodeNat (List.replicate n 0xFF) = List.replicate n (.bad 0xFF) := by
